@@ -55,6 +55,8 @@ def import_inference():
 
 
 _REAL = dict(
+    cpu_count=multiprocessing.cpu_count,
+    os_cpu_count=os.cpu_count,
     time=_time.time,
     default_rng=np.random.default_rng,
     Process=multiprocessing.Process,
@@ -91,6 +93,15 @@ class Seams:
 
     def __enter__(self):
         repl = {id(_REAL["default_rng"]): _rng.default_rng_factory}
+
+        # the number of cores is part of the environment the simulator owns
+        def sim_cpu_count():
+            c = _ctx.get()
+            n = getattr(c, "cores", None) if c is not None else None
+            return int(n) if n else _REAL["cpu_count"]()
+
+        repl[id(_REAL["cpu_count"])] = sim_cpu_count
+        repl[id(_REAL["os_cpu_count"])] = sim_cpu_count
         time_fn = None
         if self.clock is not None:
             time_fn = self.clock
@@ -125,6 +136,8 @@ class Seams:
             return dispatch
 
         self._set(np.random, "default_rng", home(_REAL["default_rng"], _rng.default_rng_factory))
+        self._set(multiprocessing, "cpu_count", home(_REAL["cpu_count"], sim_cpu_count))
+        self._set(os, "cpu_count", home(_REAL["os_cpu_count"], sim_cpu_count))
         if time_fn is not None:
             self._set(_time, "time", home(_REAL["time"], time_fn))
         if self.mp is not None:
